@@ -6,7 +6,8 @@ import "fmt"
 
 // VerifSharedCaches lists the shared caches currently held by the manager:
 // name -> identity token of the cache object (stable while the same object
-// stays in the manager) and its scrapped flag. Only compiled with the verif
+// stays in the manager), its scrapped flag and whether its lock is held (no
+// transaction is supposed to be running when the harness asks). Only compiled with the verif
 // tag; used by the verification harness to observe that a failed write
 // transaction dropped the caches it wrote and left the others alone.
 func (m *Manager) VerifSharedCaches() map[string]string {
@@ -14,7 +15,11 @@ func (m *Manager) VerifSharedCaches() map[string]string {
 	defer m.mu.Unlock()
 	out := make(map[string]string, len(m.sharedCaches))
 	for name, s := range m.sharedCaches {
-		out[name] = fmt.Sprintf("%p scrapped=%v", s, s.scrapped)
+		locked := !s.mu.TryLock()
+		if !locked {
+			s.mu.Unlock()
+		}
+		out[name] = fmt.Sprintf("%p scrapped=%v locked=%v", s, s.scrapped, locked)
 	}
 	return out
 }
